@@ -51,6 +51,7 @@ const (
 	evSleep   = 8
 	evSnap    = 9
 	evBlock   = 10
+	evSpawn   = 11
 )
 
 type budgetPanic struct{ yields int64 }
@@ -64,6 +65,8 @@ type task struct {
 	yields    int64
 	opYields  int64
 	opStallNs int64
+	dynamic   bool  // started by a go statement of the code under test
+	parent    *task // the caller task a dynamic task descends from
 	noSwitch  int // depth of critical sections of the code under test (held locks, Once.Do)
 	budget    int64
 	countdown int64
@@ -122,6 +125,7 @@ type kernel struct {
 	donefd   [2]int
 	foreign  int
 
+	spawned        int
 	anyBlocking    bool
 	klock          sync.Mutex
 	blockEvents    int
@@ -236,17 +240,14 @@ func (k *kernel) hooks() *simrt.Hooks {
 	h.Critical = k.critical
 	if k.mode == "race" {
 		h.Yield = k.yieldRace
-		h.Go = k.goChain
+		h.Go = k.goRace
 		h.BlockBegin = k.blockBeginRace
 		h.BlockEnd = k.blockEndRace
 	} else {
 		h.BlockBegin = k.blockBeginBubble
 		h.BlockEnd = k.blockEndBubble
 		h.Yield = k.yieldBubble
-		h.Go = k.goGated
-		if k.childMode == moSorted {
-			h.Go = k.goChain
-		}
+		h.Go = k.goBubble
 	}
 	return h
 }
@@ -468,6 +469,68 @@ func (k *kernel) mapOrder(site int, n int) []int {
 
 // ---------------------------------------------------------------- children of the charset detector
 
+// chardetSiteBase: site ids of the scratch copy of gogs/chardet start here (prepare.sh).
+const chardetSiteBase = 100000
+
+// goBubble: the charset detector's goroutines are gated (their release order is a
+// plan value); every other goroutine the code under test starts becomes a
+// simulated task of its own, scheduled by the plan like the caller tasks.
+func (k *kernel) goBubble(site int, fn func()) {
+	if site >= chardetSiteBase {
+		if k.childMode == moSorted {
+			k.goChain(site, fn)
+		} else {
+			k.goGated(site, fn)
+		}
+		return
+	}
+	k.goTask(site, fn)
+}
+
+// goRace: under the race kernel library goroutines run natively and the yield scheduler stands down while they live.
+func (k *kernel) goRace(site int, fn func()) {
+	if site >= chardetSiteBase {
+		k.goChain(site, fn)
+		return
+	}
+	simrt.GoForeign(site, fn)
+}
+
+// goTask turns a go statement of the code under test into a simulated task.
+func (k *kernel) goTask(site int, fn func()) {
+	parent := k.cur
+	if parent == nil {
+		go fn() // outside any task (harness set-up): nothing to schedule
+		return
+	}
+	root := parent
+	if parent.parent != nil {
+		root = parent.parent
+	}
+	t := &task{state: stRunnable, resume: make(chan struct{}), dynamic: true, parent: root, budget: 1 << 40, countdown: 1 << 62}
+	if root.budget > 0 {
+		t.budget = root.budget
+	}
+	k.mu.Lock()
+	t.id = len(k.tasks)
+	k.tasks = append(k.tasks, t)
+	k.mu.Unlock()
+	k.spawned++
+	k.event(evSpawn, int64(parent.id), int64(site), int64(t.id))
+	go func() {
+		<-t.resume
+		fn()
+		k.mu.Lock()
+		t.state = stDone
+		k.cur = nil
+		k.mu.Unlock()
+		select {
+		case k.wake <- struct{}{}:
+		default:
+		}
+	}()
+}
+
 // goChain: canonical arrival order — child i+1 starts when child i has exited.
 func (k *kernel) goChain(site int, fn func()) {
 	t := k.current()
@@ -592,7 +655,11 @@ func (k *kernel) yieldBubble(site int) {
 		k.stallIdx++
 		k.event(evStall, int64(t.id), int64(site), d)
 		k.fingerprint(evStall, int64(site), d)
-		t.opStallNs += d
+		if t.parent != nil {
+			t.parent.opStallNs += d // a goroutine of the code under test acts within the caller task's op
+		} else {
+			t.opStallNs += d
+		}
 		k.sleep(time.Duration(d), nil)
 	}
 	t.countdown--
